@@ -110,6 +110,16 @@ Theorem print_elides_only_balancing_pairs : forall count index first x,
 Proof. exact elides_must_balance. Qed.
 Print Assumptions print_elides_only_balancing_pairs.
 
+(* a printed posting line never carries a cost (`@ ..`, `@@ ..`) without the amount it belongs to: an amount is left
+   out only for a SIMPLE posting, and a posting with a cost the user wrote is not simple (print.cc:66-69).  The
+   hypothesis is parse_post's invariant: given_cost is set together with cost *)
+Theorem cost_shown_only_with_amount : forall cp xs count index first p e ln,
+  (e_given e <> None -> p_cost p <> None) ->
+  decide_post cp xs count index first (p, e) = Ok (Some ln) ->
+  l_cost ln <> None -> l_amt ln <> None.
+Proof. exact PrintProofs.cost_shown_only_with_amount. Qed.
+Print Assumptions cost_shown_only_with_amount.
+
 (* what the reader infers for an amount that was left out ... *)
 Theorem elided_second_is_negation : forall ord cp acct1 k1 a1 acct2 k2,
   k1 <> PVirtual -> k2 <> PVirtual ->
@@ -402,3 +412,19 @@ Example ex_lot_sale_prints_written_cost :
   | _ => False
   end.
 Proof. vm_compute. split; reflexivity. Qed.
+
+(* `A 100.00 EUR @ $1.12 / B -100.00 EUR @ $1.12`: one commodity, both must balance - and both amounts are printed *)
+Definition tr_eur : option comm := Some [69; 85; 82]%Z.
+Definition tr_leg (acct : str) (q : Q) : xpost :=
+  let a := mkAmt q 2 false tr_eur in
+  let g := cost_per_unit cp2 (mkAmt (112 # 100) 2 true usd) a in
+  (mkPost acct PReal (Some a) (Some g) None false false false, mkExtra SUncleared (Some g) false false None).
+
+Example ex_transfer_with_costs_prints_both_amounts :
+  match decide cp2 SUncleared [tr_leg [65%Z] 100; tr_leg [66%Z] (-100)] with
+  | Ok [l1; l2] => l_amt l1 = Some (mkAmt 100 2 false tr_eur) /\ l_amt l2 = Some (mkAmt (-100) 2 false tr_eur) /\
+                   l_cost l2 = Some (CPerUnit, false, mkAmt (28 # 25) 2 false usd)
+  | _ => False
+  end.
+Proof. vm_compute. repeat split; reflexivity. Qed.
+
